@@ -157,6 +157,7 @@ fn real_main() {
                 "C06" => poolgen::gen_c06(seed, tier),
                 "C07" => poolgen::gen_c07(seed, tier),
                 "C08" => poolgen::gen_c08(seed, tier),
+                "C18" => poolgen::gen_c18(seed, tier),
                 _ => {
                     eprintln!("unknown property {}", id);
                     std::process::exit(2);
